@@ -27,10 +27,10 @@ ASSUMPTIONS = [
     "limits: only compared when the exact reference sequence has numerically converged (|c(2K)-c(K)| < 1e-12 scale); otherwise inconclusive",
     "reference engine and laws as in C01",
 ]
-TIMEOUT = {"quick": 60, "thorough": 150}
-DEADLINE = {"quick": 110, "thorough": 1500}
+TIMEOUT = {"quick": 35, "thorough": 150}
+DEADLINE = {"quick": 70, "thorough": 1500}
 MIN_DECIDING = {"quick": 25, "thorough": 200}
-NCASES = {"quick": 130, "thorough": 2000}
+NCASES = {"quick": 110, "thorough": 2000}
 
 
 def generate(seed, tier):
